@@ -94,6 +94,10 @@ def run(ctx: Ctx) -> None:
             rs = [n for n in walk_local(snd) if isinstance(n, ast.Raise) and "LifespanFailureError" in norm(n) and f"'{stage}'" in norm(n)]
             ok = len(rs) == 1 and (f"message['type'] == 'lifespan.{stage}.failed'", True) in guard_atoms(rs[0])
             ctx.check("C14.R2", f"{mod}:Lifespan.asgi_send", f"lifespan.{stage}.failed -> raise LifespanFailureError", ok, f"lifespan.{stage}.failed must abort", rs[0] if rs else snd)
+        for stage, ev in (("startup", "self.startup.set"), ("shutdown", "self.shutdown.set")):
+            early = [c for c in find_calls(snd, "self.startup.set", "self.shutdown.set") if any(a[1] and ".failed'" in a[0] for a in guard_atoms(c))]
+            ctx.check("C14.R2", f"{mod}:Lifespan.asgi_send", f"{stage}.failed does not release the wait itself", not early,
+                      "asgi_send releases the startup/shutdown wait before raising: if the application awaits anything while the LifespanFailureError unwinds, wait_for_startup() returns while the lifespan task is still running, the failure check passes and the server starts serving after lifespan.startup.failed", early[0] if early else snd)
         hl = repo.func(mod, "Lifespan.handle_lifespan")
         trys = [n for n in walk_local(hl) if isinstance(n, ast.Try)]
         ok = len(trys) == 1 and trys[0].handlers
